@@ -528,8 +528,8 @@ def build_unit(template_path, src_dir, verus_dir):
             m = re.match(r"//@LOOP\s+(\d+)\s+(.*)", s)
             loops[int(m.group(1))] = loops.get(int(m.group(1)), "") + " " + m.group(2)
         elif s.startswith("//@GHOST"):
-            m = re.match(r'//@GHOST\s+after="((?:[^"\\]|\\.)*)"\s+(.*)', s)
-            ghosts.append((m.group(1), m.group(2)))
+            m = re.match(r'//@GHOST\s+(after|before|before_all|after_all)="((?:[^"\\]|\\.)*)"\s+(.*)', s)
+            ghosts.append((m.group(2), m.group(3), m.group(1)))
         elif s.startswith("//@PRELOOP"):
             m = re.match(r"//@PRELOOP\s+(\d+)\s+(.*)", s)
             preloops[int(m.group(1))] = preloops.get(int(m.group(1)), "") + " " + m.group(2)
@@ -609,11 +609,21 @@ def build_unit(template_path, src_dir, verus_dir):
             loops = {}
             preloops = {}
             # ghost-only statements (erased by Verus) inserted after a named statement of the extracted body
-            for anchor, text in ghosts:
+            for anchor, text, where_ in ghosts:
+                if where_.endswith("_all"):
+                    # every occurrence (e.g. every `return res;` of an arm)
+                    parts = body.split(anchor)
+                    if len(parts) < 2:
+                        raise LostAnchor("ghost anchor `%s` not found" % anchor)
+                    ins = "\n" + text + "\n"
+                    body = ((ins + anchor) if where_ == "before_all" else (anchor + ins)).join(parts)
+                    meta["rules"]["GHOST"] = meta["rules"].get("GHOST", 0) + len(parts) - 1
+                    continue
                 at = body.find(anchor)
                 if at < 0:
                     raise LostAnchor("ghost anchor `%s` not found" % anchor)
-                at += len(anchor)
+                if where_ == "after":
+                    at += len(anchor)
                 body = body[:at] + "\n" + text + "\n" + body[at:]
                 meta["rules"]["GHOST"] = meta["rules"].get("GHOST", 0) + 1
             ghosts = []
